@@ -96,8 +96,8 @@ impl KSpec {
     }
 }
 
-trait K64: Kernel<f64, Vec<f64>> + serde::Serialize + Clone {}
-impl<K: Kernel<f64, Vec<f64>> + serde::Serialize + Clone> K64 for K {}
+trait K64: Kernel<f64, Vec<f64>> + serde::Serialize + serde::de::DeserializeOwned + Clone {}
+impl<K: Kernel<f64, Vec<f64>> + serde::Serialize + serde::de::DeserializeOwned + Clone> K64 for K {}
 
 macro_rules! with_kernel {
     ($k:expr, $f:ident ( $($args:expr),* )) => {
@@ -487,6 +487,8 @@ fn svc_fit_check<K: K64>(kern: K, c: &mut Case, cfg: &SvcCfg, forced: Option<&Ve
     if !c.check("svc.output-length", dec.len() == ev.r && pred.len() == ev.r, &sg, || format!("{} decision values, {} labels for {} rows", dec.len(), pred.len(), ev.r)) {
         return log;
     }
+    sequence_checks(c, "svc", &sg, &model, &evm, &pred, |m, q| m.predict(q));
+    sequence_checks(c, "svc.decision_function", &sg, &model, &evm, &dec, |m, q| m.decision_function(q));
     let mut worst = 0.0f64;
     let mut at = 0usize;
     let mut refat = 0.0;
@@ -827,6 +829,7 @@ fn svr_fit_check<K: K64>(kern: K, c: &mut Case, cfg: &SvrCfg) {
     if !c.check("svr.output-length", pred.len() == ev.r, &sg, || format!("{} predictions for {} rows", pred.len(), ev.r)) {
         return;
     }
+    sequence_checks(c, "svr", &sg, &model, &evm, &pred, |m, q| m.predict(q));
     let mut fref = vec![0.0; ev.r];
     let mut fscale = 0.0f64;
     let mut worst = 0.0f64;
